@@ -1769,6 +1769,49 @@ impl IRBuilder {
             }
         }
 
+        // The executor emits the group-by columns first and the aggregate values after
+        // them. When the head interleaves them differently (e.g. `r(count<X>, Y)`),
+        // lay the Aggregate out in execution order and restore the head order on top.
+        let has_ranking = head
+            .args
+            .iter()
+            .any(|t| matches!(t, Term::Aggregate(f, _) if f.is_ranking()));
+        if !has_ranking {
+            let is_agg: Vec<bool> = head
+                .args
+                .iter()
+                .map(|t| matches!(t, Term::Aggregate(_, _)))
+                .collect();
+            let exec_order: Vec<usize> = (0..is_agg.len())
+                .filter(|&i| !is_agg[i])
+                .chain((0..is_agg.len()).filter(|&i| is_agg[i]))
+                .collect();
+            if exec_order.iter().enumerate().any(|(pos, &i)| pos != i) {
+                let exec_schema: Vec<String> = exec_order
+                    .iter()
+                    .map(|&i| output_schema[i].clone())
+                    .collect();
+                let projection: Vec<usize> = (0..is_agg.len())
+                    .map(|i| {
+                        exec_order
+                            .iter()
+                            .position(|&e| e == i)
+                            .expect("exec_order is a permutation of the head positions")
+                    })
+                    .collect();
+                return Ok(IRNode::Map {
+                    input: Box::new(IRNode::Aggregate {
+                        input: Box::new(input),
+                        group_by,
+                        aggregations,
+                        output_schema: exec_schema,
+                    }),
+                    projection,
+                    output_schema,
+                });
+            }
+        }
+
         Ok(IRNode::Aggregate {
             input: Box::new(input),
             group_by,
